@@ -212,46 +212,10 @@ class Dim:
         return Q
 
     def min_select(self, l):
-        """is local l `if y < x { y } else { x }` (any comparison operator, either order): the smaller of the two values it is
-        assigned, i.e. min(x, y) written out?"""
-        b = self.b
-        ds = b.defs.get(l, [])
-        if len(ds) != 2 or any(d[2] not in ('assign', 'call') for d in ds):
-            return False
-        (b1, _, k1, n1), (b2, _, k2, n2) = ds
-        v1 = self.r.rvalue(n1['rv']) if k1 == 'assign' else self.r.call(n1, b1, 0)
-        v2 = self.r.rvalue(n2['rv']) if k2 == 'assign' else self.r.call(n2, b2, 0)
+        """is local l min(x, y) written as a branch (mirlib.min_select)?"""
         if not hasattr(self, '_cd'):
-            self._cd = control_dependence(b)
-        c1, c2 = self._cd.get(b1, set()), self._cd.get(b2, set())
-        for (S1, A1) in c1:
-            for (S2, A2) in c2:
-                if S1 != S2 or A1 == A2:
-                    continue
-                t = b.blocks[S1]['t']
-                if 'switch' not in t or t.get('sty') != 'bool':
-                    continue
-                cond = Resolver(b).operand(t['switch'])
-                if cond[0] != 'bin' or cond[1] not in ('Lt', 'Le', 'Gt', 'Ge') or {cond[2], cond[3]} != {v1, v2} or v1 == v2:
-                    continue
-                ok = True
-                for A, v in ((A1, v1), (A2, v2)):
-                    labs = [lab for lab, tgt in switch_edges(b, S1) if tgt == A]
-                    truth = bool_truth(b, S1, labs[0]) if len(labs) == 1 else None
-                    if truth is None:
-                        ok = False
-                        break
-                    x, y = cond[2], cond[3]
-                    # smaller operand on this edge
-                    if cond[1] in ('Lt', 'Le'):
-                        small = x if truth else y
-                    else:
-                        small = y if truth else x
-                    if v != small:
-                        ok = False
-                if ok:
-                    return True
-        return False
+            self._cd = control_dependence(self.b)
+        return min_select(self.b, l, self.r, self._cd) is not None
 
     def solve(self):
         b = self.b
